@@ -223,12 +223,15 @@ def run(run: Run) -> None:
         us.append((5, ("GEN", name, 5, seed + k), "superadditive_cached", "l1_norm", None, f"gen5:{name}", 3 if quick else 4))
     for k, name in enumerate(("factory_square", "xs", "graph_random")):
         us.append((6, ("GEN", name, 6, seed + k), "superadditive_cached", "l1_norm", None, f"gen6:{name}", 2))
+    us.append((7, [dict(A.larger_n_samples(7))["path-shift"]], "superadditive_cached", "l1_norm", 2, "exact7", 1))
+    big3 = A.shifted(g3[(7 * (seed + 1)) % len(g3)], tuple(A.BIG * x for x in (1, -1, 2)))
+    us.append((3, [big3, A.scaled(g3[(19 * (seed + 2)) % len(g3)], A.TINY)], "superadditive", "l1_norm", None, "exact3-scales", None))
     run.rule = ("BFS over the real ICG_Gym_Linear with numpy.random.choice owned by a choice controller: transitions are (allowed size k, candidate j) for "
                 "EVERY candidate, over several episodes (reset between them, differing scripted hidden games incl. non-superadditive ones) on one "
                 "long-lived env; n=3,4 all states until done, n=5 depth <= 3 (thorough 4), n=6 depth <= 2; after reset and after every step: mask per "
                 "size, candidates offered == unknown coalitions of that size, exactly one new coalition of size k revealed and reported, reward/done == "
                 "underlying env, observation == per-size sum of the underlying observation (length n). non-trivial = distinct revealed sets")
-    run.bounds = {"n": [3, 4, 5, 6], "n5_depth": 3 if quick else 4, "n6_depth": 2, "configurations": len(us)}
+    run.bounds = {"n": [3, 4, 5, 6, 7], "n5_depth": 3 if quick else 4, "n6_depth": 2, "configurations": len(us)}
     run.assumptions = ["the underlying environment's own correctness is C09's; here it is the reference"]
     run.add(fanout(unit, sorted(us, key=lambda u: -(u[0] if u[0] != 4 else 5.5)), chunk=1))
 
